@@ -21,8 +21,8 @@ CLAIM = {
          'Verus capability preconditions on extracted real text'),
  'C03': ('Deductive proof (Verus): the only bytes any handler may emit are the specified reply - header(len, -errno or 0, unique) followed by the encoding of the value the filesystem returned, with one shared definition of the entry encoding (attr flags and split timeouts included) for lookup, mknod, mkdir, symlink, link and create, and the read payload equal to the bytes the filesystem produced.',
          'Verus contracts on extracted real text, reply obligations as preconditions of the emission points'),
- 'C18': ('Deductive proof (Verus, unbounded over all u64/i32 arguments) that the real text of PassthroughFs::seal_size_check lets a request through exactly when it is a write or a size-keeping fallocate that stays within the current file size, and refuses everything else with the prescribed errno. This is the arithmetic gate only.',
-         'Verus contracts on extracted real text'),
+ 'C18': ('Deductive proof (Verus, unbounded over all u64/i32/u32 arguments and flag words) on the real text: (1) PassthroughFs::seal_size_check lets a request through exactly when it is a write or a size-keeping fallocate that stays within the current file size and refuses everything else with the prescribed errno; (2) the call sites: with host system calls as capability-guarded externals, on a sealed export PassthroughFs::write can reach the host write only for an empty write or one that ends within the fstat size on a descriptor not in append mode (the request flags are applied to the descriptor by check_fd_flags, also under contract), fallocate only with a size-keeping mode inside the file, setattr never reaches ftruncate and fails whenever FATTR_SIZE is set, and open_inode (every re-open for I/O: OPEN, CREATE of an existing name, truncate by path) never passes O_TRUNC to the kernel. Kernel semantics of the system calls are assumptions.',
+         'Verus contracts on extracted real text; host system calls as capability-guarded external functions'),
  'C06': ('Deductive proof (Verus, names of any length) of the name gate on the real text: the predicates is_dot_or_dotdot / is_safe_path_component / validate_path_component equal "no slash, not . or ..", PassthroughFs::validate_path_component applies them iff it runs standalone, PassthroughFs::lookup and Vfs::lookup refuse names with a slash, and every VFS operation that creates, removes, renames or links a name returns EINVAL for an unsafe name and holds no capability to call any backend in that case (a call placed before the check fails its precondition).',
          'Verus contracts + capability preconditions on extracted real text'),
  'C07': ('Deductive proof (Verus) for an arbitrary mount-table state: the inode encoding is a bijection (bit-vector lemmas), get_real_rootfs computes the specified route, and each of the 32 routed VFS operations holds the capability for exactly the owning backend with the backend inode number and unchanged arguments, returns ENOENT without any call for a vacant slot, refuses rename/link across mounts, and re-encodes returned entries/attributes with the mount index.',
